@@ -3,6 +3,7 @@
 #include "timer_spec.h"
 #include "timer_contracts.h"
 #include "common.h"
+#include "spec_touch.h"
 int verif_outcome;
 int ghost_timer_irq;
 #ifdef VERIF_REAL
